@@ -146,7 +146,8 @@ fn pair(d: &mut Draw) -> ([f64; 4], [f64; 4], &'static str) {
     let p = fnormalize4(&comb4(&g, 1.0, &a, -dot4(&g, &a)));
     let flip = if d.bool() { 1.0 } else { -1.0 };
     let mk = |om: f64| fnormalize4(&comb4(&a, om.cos() * flip, &p, om.sin() * flip));
-    match d.int(0, 13) {
+    match d.int(0, 14) {
+        14 => (a, mk(std::f64::consts::FRAC_PI_2 - d.f64_slog(1e-12, 1e-2)), "nearly-orthogonal"),
         13 => {
             // a.b is +-0.9995 *exactly* (a on a coordinate axis, b = c a + s e_j): the statement's "a.b <= 0.9995" side
             // of the hand-over, with no rounding in the dot product to hide behind
@@ -217,9 +218,9 @@ struct Tol {
     band: f64,
     tie: f64,
 }
-const TOL64: Tol = Tol { eps: f64::EPSILON, unit: 4e-15, end: 4e-15, tiny_omega: 1e-6, abs: 1e-12, plane: 1e-10, exact_speed: 1e-9, close_speed: 1e-5, band: 1e-9, tie: 1e-12 };
+const TOL64: Tol = Tol { eps: f64::EPSILON, unit: 4e-15, end: 4e-15, tiny_omega: 1e-6, abs: 1e-12, plane: 1e-10, exact_speed: 4e-13, close_speed: 1e-5, band: 1e-9, tie: 1e-12 };
 /// f32: results are unit and hit the endpoints to a few f32 ulps; angles are known to eps32/Omega
-const TOL32: Tol = Tol { eps: f32::EPSILON as f64, unit: 2e-6, end: 2e-6, tiny_omega: 2e-3, abs: 2e-6, plane: 4e-6, exact_speed: 2e-5, close_speed: 3e-5, band: 1e-6, tie: 1e-6 };
+const TOL32: Tol = Tol { eps: f32::EPSILON as f64, unit: 2e-6, end: 2e-6, tiny_omega: 2e-3, abs: 2e-6, plane: 4e-6, exact_speed: 3e-6, close_speed: 3e-5, band: 1e-6, tie: 1e-6 };
 
 /// validity predicate for one choice of the target b'
 fn check_against(r: &[f64; 4], a: &[f64; 4], bp: &[f64; 4], t: f64, slerp: bool, raw_dot: f64, who: &str, tl: &Tol) -> Result<(), (&'static str, String)> {
@@ -406,10 +407,10 @@ pub fn property() -> Property {
     add!("lerp-i8", "i8", lerp_i8, 1500, 100_000, 32, &[("no-overflow", 100)], "every operand tuple over the whole integer range");
     add!("lerp-u64", "u64", lerp_u64, 1500, 100_000, 32, &[("no-overflow", 100)], "every operand tuple over the whole integer range");
     add!("nlerp_slerp-f64", "f64", interp_f64, 20000, 1_000_000, 80,
-        &[("generic+", 50), ("generic-", 50), ("generic-endpoint", 30), ("nearly-parallel", 30), ("nearly-opposite", 30), ("hand-over+", 50), ("hand-over-", 50), ("orthogonal", 30), ("orthogonal-disjoint-support", 30), ("hand-over-exactly-at-threshold", 20), ("equal", 15), ("exactly-opposite", 15)],
+        &[("generic+", 50), ("generic-", 50), ("generic-endpoint", 30), ("nearly-parallel", 30), ("nearly-opposite", 30), ("hand-over+", 50), ("hand-over-", 50), ("orthogonal", 30), ("orthogonal-disjoint-support", 30), ("hand-over-exactly-at-threshold", 20), ("nearly-orthogonal", 30), ("equal", 15), ("exactly-opposite", 15)],
         "every generated pair; all pair classes, both signs of a.b and both endpoints required");
     add!("nlerp_slerp-f32", "f32", interp_f32, 20000, 1_000_000, 80,
-        &[("generic+", 50), ("generic-", 50), ("nearly-parallel", 30), ("nearly-opposite", 30), ("hand-over+", 50), ("hand-over-", 50), ("orthogonal", 30)],
+        &[("generic+", 50), ("generic-", 50), ("nearly-parallel", 30), ("nearly-opposite", 30), ("hand-over+", 50), ("hand-over-", 50), ("orthogonal", 30), ("nearly-orthogonal", 30)],
         "every generated pair (the f64 pair classes rounded to f32)");
     Property {
         id: "C14",
